@@ -10,7 +10,7 @@ namespace Emg
 structure QI where
   re : Rat
   im : Rat
-deriving BEq, Repr, Inhabited
+deriving DecidableEq, Repr, Inhabited
 
 namespace QI
 instance : Add QI := ⟨fun a b => ⟨a.re+b.re, a.im+b.im⟩⟩
